@@ -189,6 +189,42 @@ def run(ctx, col: Collector):
                               f'so a name with a space, dot or other punctuation (legal when quoted in the source) makes the rendered DBML unparseable or parse '
                               f'differently', node=f.node, file=f.fn.file)
         col.floor('C02-ident', 'identifier sinks', n, 18)
+        # the reader's quoted-identifier token does no escape processing; if it did, the writer would have to escape too
+        name_tok = gm.var('generic', 'name')
+        for q in [a for a in flatten_alt(name_tok, ('first', 'or')) if a.kind == 'quoted']:
+            esc = q.a.get('esc')
+            col.check(not esc, 'C02-ident', 'reader:quoted-identifier:no-escape',
+                      'the reader returns the text between the double quotes unchanged, as the writer writes it',
+                      f'the quoted-identifier token processes the escape character {esc!r}, but the DBML renderer writes names raw between double quotes: a '
+                      f'backslash in a name is dropped on re-parsing (names change on every cycle)', file=q.file)
+        # table identifiers always go through the qualifying helper (the parser resolves an unqualified name in the default schema)
+        nq = 0
+        for s in ti.all_sinks():
+            if not s.fn.module.startswith(DBML) or s.fn.qualname in ('get_full_name_for_dbml',):
+                continue
+            if s.source[0] != 'attr' or not s.source[1].endswith('.name'):
+                continue
+            owners = {c for c, a in flows.sink_attrs(ctx, s, envs)}
+            if owners and owners <= {'Table'}:
+                nq += 1
+                col.bad('C02-ident', f'table-name-unqualified@{s.fn.qualname}:{s.source[1]}',
+                        f'{s.fn.qualname} ({s.where}) writes a table name directly (`{s.template[:60]}`) instead of through get_full_name_for_dbml: the schema is '
+                        f'left out although the parser resolves an unqualified table name in the default schema', node=s.node, file=s.fn.file)
+        uses = [c for fi2 in ti.funcs.values() if fi2.module.startswith(DBML) for c in ast.walk(fi2.node)
+                if isinstance(c, ast.Call) and isinstance(c.func, ast.Name) and c.func.id == 'get_full_name_for_dbml']
+        col.check(nq == 0 and len(uses) >= 5, 'C02-ident', 'table-names:always-qualified', f'every table identifier is written through the qualifying helper ({len(uses)} uses)',
+                  f'{nq} table names written without the qualifying helper')
+        for fi2 in ti.funcs.values():
+            if not fi2.module.startswith(DBML):
+                continue
+            for c in ast.walk(fi2.node):
+                if isinstance(c, ast.Call) and isinstance(c.func, ast.Name) and c.func.id == 'get_full_name_for_dbml':
+                    from ..strctx import enclosing_tests
+                    gs = [t for t, pol in enclosing_tests(fi2.node, c) if 'schema' in t]
+                    col.check(not gs, 'C02-ident', f'qualifying-helper:unconditional@{fi2.qualname}:{c.lineno - fi2.node.lineno}',
+                              'the qualifying helper is applied regardless of the schema',
+                              f'{fi2.qualname} uses get_full_name_for_dbml only under `{gs[0] if gs else ""}`: on the other branch the table is written without its schema',
+                              node=c, file=fi2.file)
     guarded(col, 'C02-ident', 'identifiers', identifiers)
 
     # ---------------------------------------------------------------- C02-keyword
@@ -364,6 +400,11 @@ def run(ctx, col: Collector):
             if o.rule in ('C14-roundtrip',):
                 n += 1
                 col.obs.append(type(o)(col.prop, 'C02-comment', o.construct, o.status, o.msg, o.file, o.line, o.extra))
+        sub = ctx.sub('c10', col.prop)
+        for o in sub.obs:
+            if o.rule in ('C10-pure', 'C10-derived', 'C10-cache') and ('dbml' in o.construct.lower() or o.status != 'discharged' or 'Database' in o.construct):
+                n += 1
+                col.obs.append(type(o)(col.prop, 'C02-current', o.construct, o.status, o.msg, o.file, o.line, o.extra))
         col.floor('C02-text', 'shared free-text and comment obligations', n, 40)
     guarded(col, 'C02-text', 'shared', shared)
 
